@@ -39,8 +39,8 @@ ASSUMPTIONS = [
     "and lock-step comparison of that backend stops at the first successful merge",
     "imports and clones are C04's (the backends deliberately differ there: replace vs. warn-and-skip)",
 ]
-RULE = ("corpus first, then state-aware operation histories (depth <= 40) plus every continuation of depth 2 (quick) / 3 (thorough) of a "
-        "fixed two-graph prefix over a 53-operation alphabet; 3 graph ids, "
+RULE = ("corpus first, then state-aware operation histories (depth <= 40) plus every continuation of depth 2 of a fixed two-graph prefix over a "
+        "53-operation alphabet (thorough: also depth 3 over the 28 operations addressed to the first graph or to both); 3 graph ids, "
         "4 node ids, 3 classes, 2 relations, property names {Name, Type, Class, NodeID, GraphID (unset only), p, q}; non-trivial = "
         ">= 2 graphs touched and >= 1 failing call; distinct by op-kind sequence")
 
@@ -604,14 +604,20 @@ def oracle(ctx, res, n=None, length=40, exhaustive=None):
         check_history(h, res)
         if len(set(q[1] for q in h)) >= 2:
             res.nontrivial.add(L.kind_seq(h))
-    depth = exhaustive if exhaustive is not None else ctx.scale(2, 3)
+    # small scope: every continuation of PREFIX of depth 2 over the whole alphabet; in the thorough tier also every
+    # continuation of depth 3 over the operations addressed to g1 (plus the two-graph operations)
     A = small_alphabet()
-    cnt = 0
-    for h in itertools.product(A, repeat=depth):
-        check_history([copy.deepcopy(r) for r in PREFIX] + [copy.deepcopy(r) for r in h], res)
-        cnt += 1
-    res.evaluations += cnt
-    res.count("exhaustive-depth-%d" % depth, cnt)
+    plans = [(2, A)]
+    depth = exhaustive if exhaustive is not None else ctx.scale(2, 3)
+    if depth >= 3:
+        plans.append((3, [r for r in A if r[1] == "g1" or r[0] in ("merge_nodes", "find_matching_nodes")]))
+    for d, alpha in plans:
+        cnt = 0
+        for h in itertools.product(alpha, repeat=d):
+            check_history([copy.deepcopy(r) for r in PREFIX] + [copy.deepcopy(r) for r in h], res)
+            cnt += 1
+        res.evaluations += cnt
+        res.count("exhaustive-depth-%d-over-%d-ops" % (d, len(alpha)), cnt)
     res.sample({"history": hs[-1][:5], "checks": "shared vs disjoint vs python reference after every call; identity properties; "
                 "NodeID uniqueness; merge edges and policy"})
 
